@@ -64,6 +64,7 @@ fn main() {
     panics::run(&repo, &mut out);
     schema::run(&repo, &mut out);
     serde_structs::run(&repo, &mut out);
+    serde_structs::run_state(&repo, &mut out);
     for (name, content) in &out.files {
         write_if_changed(&outdir.join(name), content);
     }
